@@ -6,6 +6,7 @@
 //! `drain_all`, `drain_slices k`, `drain_bytes k`, `finish`.
 //! `<payload>` = hex or `gen:<len>:<seed>:<density>`.
 use crate::fam_iovec::fnv64;
+use crate::fam_readn::{kind_index, oracle_c17, parse_script, Call, ScriptedReader};
 use crate::util::*;
 use hcobs::verif::{VerifDecoder, VerifEncoder};
 use hcobs::{Decoder, DecodingError, Encoder};
@@ -82,6 +83,10 @@ struct CodecWExec {
     max_lag: usize,
     max_live: usize,
     fed: usize,
+    /// everything logically fed so far (payloads, and the bytes readers actually delivered)
+    logical_input: Vec<u8>,
+    /// everything drained so far
+    drained: Vec<u8>,
 }
 
 fn err_name(e: &DecodingError) -> String {
@@ -116,6 +121,32 @@ impl CodecWExec {
             }
         }
         None
+    }
+
+    /// At `finish` of an encoder: drained ++ remaining must equal what a fresh real encoder
+    /// produces for the logical input in one call ("a failed or short read leaves the output
+    /// unaffected apart from the bytes actually read"; also split/method independence).
+    fn end_to_end(&mut self, so: &mut StepOut, v: &OwningIovec<'static>) {
+        let mut all = self.drained.clone();
+        match v.flatten() {
+            Ok(rest) => all.extend_from_slice(&rest),
+            Err(_) => so.violations.push("C04 placeholder still pending after finish".into()),
+        }
+        let reference = if self.limits == (PROD_INIT, PROD_SUB) {
+            let mut e = Encoder::new();
+            e.encode_copy(&self.logical_input);
+            e.finish().flatten().unwrap_or_default()
+        } else {
+            let Some(mut e) = VerifEncoder::new_from_iovec(OwningIovec::new(), self.limits.0, self.limits.1) else { return };
+            e.encode_copy(&self.logical_input);
+            e.finish().flatten().unwrap_or_default()
+        };
+        if all != reference {
+            so.violations.push(
+                "C17 encoder output (drained ++ final) differs from a one-call encoding of the payloads plus the bytes the readers delivered".into(),
+            );
+            so.violations.push("C02 encoder output depends on how the input was fed".into());
+        }
     }
 
     fn with_consumer<R>(&mut self, f: impl FnOnce(&mut ConsumingIovec<'_>) -> R) -> Option<R> {
@@ -249,6 +280,7 @@ impl Exec for CodecWExec {
                 }
                 let Some(bytes) = parse_payload(payload) else { return StepOut::bad() };
                 self.fed += bytes.len();
+                self.logical_input.extend_from_slice(&bytes);
                 let att = NonZeroUsize::new(4).unwrap();
                 let n = bytes.len();
                 let res: Option<Result<(), DecodingError>> = match *m {
@@ -319,19 +351,120 @@ impl Exec for CodecWExec {
                     }
                 }
             }
-            ["drain_all"] => {
-                let Some(n) = self.with_consumer(|c| c.consume(1_000_000_000)) else { return StepOut::bad() };
+            ["drain_all"] | ["drain_slices", _] | ["drain_bytes", _] => {
+                let k = if w.len() == 2 {
+                    let Ok(k) = w[1].parse::<usize>() else { return StepOut::bad() };
+                    k
+                } else {
+                    1_000_000_000
+                };
+                let by_bytes = w[0] == "drain_bytes";
+                let Some((n, took)) = self.with_consumer(|c| {
+                    let mut snap = Vec::new();
+                    for s in c.stable_prefix() {
+                        snap.extend_from_slice(s);
+                    }
+                    let before = c.total_size();
+                    let n = if by_bytes { c.advance_slices(k) } else { c.consume(k) };
+                    let removed = before - c.total_size();
+                    snap.truncate(removed.min(snap.len()));
+                    (n, (snap, removed))
+                }) else {
+                    return StepOut::bad();
+                };
+                if took.0.len() != took.1 {
+                    so.violations.push("C04 drained more bytes than were consumable".into());
+                }
+                self.drained.extend_from_slice(&took.0);
                 so.obs.push(format!("R {}", n));
             }
-            ["drain_slices", k] => {
-                let Ok(k) = k.parse::<usize>() else { return StepOut::bad() };
-                let Some(n) = self.with_consumer(|c| c.consume(k)) else { return StepOut::bad() };
-                so.obs.push(format!("R {}", n));
-            }
-            ["drain_bytes", k] => {
-                let Ok(k) = k.parse::<usize>() else { return StepOut::bad() };
-                let Some(n) = self.with_consumer(|c| c.advance_slices(k)) else { return StepOut::bad() };
-                so.obs.push(format!("R {}", n));
+            ["feed_read", count, attempts, src, script] => {
+                if self.failed {
+                    return StepOut::bad();
+                }
+                let (Ok(count), Ok(attempts), Some(src), Some(script)) =
+                    (count.parse::<usize>(), attempts.parse::<usize>(), from_hex(src), parse_script(script))
+                else {
+                    return StepOut::bad();
+                };
+                let Some(att) = NonZeroUsize::new(attempts) else { return StepOut::bad() };
+                let mut reader = ScriptedReader::new(src, script);
+                // Ok(n) / Err(io kind) / decoding error (reported by decode_read as ErrorKind::Other with a DecodingError inside)
+                enum R {
+                    Ok(usize),
+                    Io(usize),
+                    Dec(DecodingError),
+                }
+                let r = match &mut self.codec {
+                    Codec::Enc(e) => match e.encode_read(&mut reader, count, att) {
+                        Ok(n) => R::Ok(n),
+                        Err(e) => R::Io(kind_index(e.kind())),
+                    },
+                    Codec::VEnc(e) => match e.read_n(&mut reader, count, att) {
+                        Ok(a) => {
+                            let n = a.slice().len();
+                            e.encode_anchored(a);
+                            R::Ok(n)
+                        }
+                        Err(e) => R::Io(kind_index(e.kind())),
+                    },
+                    Codec::Dec(d) => match d.decode_read(&mut reader, count, att) {
+                        Ok(n) => R::Ok(n),
+                        Err(e) => match e.get_ref().and_then(|x| x.downcast_ref::<DecodingError>()) {
+                            Some(de) => R::Dec(*de),
+                            None => R::Io(kind_index(e.kind())),
+                        },
+                    },
+                    Codec::VDec(d) => match d.read_n(&mut reader, count, att) {
+                        Ok(a) => {
+                            let n = a.slice().len();
+                            match d.decode_anchored(a) {
+                                Ok(()) => R::Ok(n),
+                                Err(de) => R::Dec(de),
+                            }
+                        }
+                        Err(e) => R::Io(kind_index(e.kind())),
+                    },
+                    _ => return StepOut::bad(),
+                };
+                let reqs: Vec<usize> = reader
+                    .calls
+                    .iter()
+                    .map(|c| match c {
+                        Call::Delivered(a, _) => *a,
+                        Call::Failed(a, _) => *a,
+                    })
+                    .collect();
+                let delivered: Vec<u8> = reader
+                    .calls
+                    .iter()
+                    .flat_map(|c| match c {
+                        Call::Delivered(_, b) => b.clone(),
+                        Call::Failed(_, _) => vec![],
+                    })
+                    .collect();
+                // C17 on the codec-level entry points: same reader discipline as ByteArena::read_n ...
+                let as_result: Result<Vec<u8>, usize> = match &r {
+                    R::Ok(_) | R::Dec(_) => Ok(delivered.clone()),
+                    R::Io(k) => Err(*k),
+                };
+                so.violations.extend(oracle_c17(count, attempts, &reader.calls, &as_result));
+                match r {
+                    R::Ok(n) => {
+                        if n != delivered.len() {
+                            so.violations.push(format!("C17 encode_read/decode_read reported {} bytes but the reader delivered {}", n, delivered.len()));
+                        }
+                        // ... and exactly the delivered bytes enter the codec (checked at finish against a one-shot run)
+                        self.logical_input.extend_from_slice(&delivered);
+                        so.obs.push(format!("R ok {} reqs={}", n, nat_list(&reqs)));
+                    }
+                    R::Io(k) => so.obs.push(format!("R ioerr {} reqs={}", k, nat_list(&reqs))),
+                    R::Dec(de) => {
+                        self.logical_input.extend_from_slice(&delivered);
+                        so.obs.push(format!("R err {} reqs={}", err_name(&de), nat_list(&reqs)));
+                        self.failed = true;
+                    }
+                }
             }
             ["finish"] => {
                 if self.failed {
@@ -341,11 +474,15 @@ impl Exec for CodecWExec {
                 self.codec = match old {
                     Codec::Enc(e) => {
                         so.obs.push("R ok".into());
-                        Codec::Done(e.finish())
+                        let v = e.finish();
+                        self.end_to_end(&mut so, &v);
+                        Codec::Done(v)
                     }
                     Codec::VEnc(e) => {
                         so.obs.push("R ok".into());
-                        Codec::Done(e.finish())
+                        let v = e.finish();
+                        self.end_to_end(&mut so, &v);
+                        Codec::Done(v)
                     }
                     Codec::Dec(d) => match d.finish() {
                         Ok(v) => {
@@ -421,6 +558,8 @@ impl Family for CodecWFamily {
             max_lag: 0,
             max_live: 0,
             fed: 0,
+            logical_input: vec![],
+            drained: vec![],
         })
     }
 
@@ -475,6 +614,12 @@ impl Family for CodecWFamily {
             let seed = rng.next() >> 16;
             let m = if soak { *rng.pick(&["c", "c", "c", "b", "a"]) } else { *rng.pick(&["b", "c", "a"]) };
             ops.push(format!("feed {} gen:{}:{}:{}", m, len, seed, if soak { dens.min(1) } else { dens }));
+            if !soak && rng.chance(1, 4) {
+                let count = rng.range(0, 12) as usize;
+                let src: Vec<u8> = (0..count + 3).map(|_| if rng.chance(1, 3) { *rng.pick(&[0xFEu8, 0xFD]) } else { rng.next() as u8 }).collect();
+                let script = *rng.pick(&["d1,d2,d9", "x0,d3,e", "x0,x0,x0,x0", "x3", "d2,x4,d5", "e", "d1,x0,x0,d1,d1", "-", "d40"]);
+                ops.push(format!("feed_read {} {} {} {}", count, rng.range(1, 5), to_hex(&src), script));
+            }
             match rng.below(if soak { 1 } else { 4 }) {
                 0 => ops.push("drain_all".into()),
                 1 => ops.push(format!("drain_slices {}", rng.range(0, 3))),
